@@ -72,7 +72,8 @@ MC_CFG = {
     "C31": {"Peers": "{1, 2, 3}", "GetCallers": "{}", "HeadCallers": "{1, 2}", "Callers": "{1, 2}",
             "Hdrs": "{1, 2, 3}", "MaxRounds": 1, "MaxPeerEvents": 0, "HeadOutcomes": '{"hdr", "invalid", "fail"}'},
     "mixed": {"Peers": "{1, 2}", "GetCallers": "{1}", "HeadCallers": "{2}", "Callers": "{1, 2}", "Hdrs": "{1, 3}",
-              "MaxRounds": 1, "MaxPeerEvents": 1},
+              "MaxRounds": 1, "MaxPeerEvents": 1, "GetOutcomes": '{"valid", "invalid", "notfound", "fail"}',
+              "HeadOutcomes": '{"hdr", "invalid", "fail"}'},
 }
 GEN_CFG = {
     "mixed": {},
